@@ -200,8 +200,10 @@ def _fork_branch_ends_in_block(fork):
     )
 
 
-def excluded_by(items, top=True) -> str | None:
-    """Return the name of the first exclusion rule that applies, or None."""
+def excluded_by(items, top=True, tail=True) -> str | None:
+    """Return the name of the first exclusion rule that applies, or None.
+    `tail`: this sequence is in tail position of the whole definition
+    (nothing can follow it at any level)."""
     for idx, it in enumerate(items):
         last = idx == len(items) - 1
         if it[0] == "loop":
@@ -210,14 +212,15 @@ def excluded_by(items, top=True) -> str | None:
                 return "R1"  # break-loop must be followed by an event
             if _ends_in_fork(body) and _fork_branch_ends_in_block(body[-1]):
                 return "R2"
-            if last and _ends_in_fork(body) and body[-1][0] in ("or", "and"):
-                return "R3"
-            r = excluded_by(body, False)
+            if (last and tail and _ends_in_fork(body)
+                    and body[-1][0] in ("or", "and")):
+                return "R3"  # trailing loop (no exit event) ending in a fork
+            r = excluded_by(body, False, False)
             if r:
                 return r
         elif it[0] in ("and", "or", "xor"):
             for b in it[1]:
-                r = excluded_by(b, False)
+                r = excluded_by(b, False, tail and last)
                 if r:
                     return r
     return None
